@@ -68,6 +68,16 @@ func GenUniverse(r *vh.Rand, tag string) (*Universe, string) {
 	return u, "random"
 }
 
+// WithBad gives one or two message nodes a field of an unsupported type, so that they
+// (and the types that reach them) cannot be reflected.
+func WithBad(r *vh.Rand, u *Universe) {
+	ms := MsgNodes(u)
+	for n := r.Range(1, 2); n > 0 && len(ms) > 0; n-- {
+		i := vh.Pick(r, ms)
+		u.Nodes[i].Bad = r.Range(1, len(u.Nodes[i].Refs)+1)
+	}
+}
+
 // MsgNodes lists the message nodes.
 func MsgNodes(u *Universe) []int {
 	var out []int
